@@ -108,6 +108,7 @@ def shards(tier):
     n = 48
     sh = [dict(tier=tier, kind="files", idx=list(range(i, len(C), n))) for i in range(n)]
     sh.append(dict(tier=tier, kind="stdout"))
+    sh.append(dict(tier=tier, kind="two-outputs"))
     return sh
 
 
@@ -190,6 +191,10 @@ def run_shard(d):
         do_stdout(wd, res)
         clih.rmtree(wd)
         return res
+    if d["kind"] == "two-outputs":
+        do_two_outputs(wd, res)
+        clih.rmtree(wd)
+        return res
     C = configurations(d["tier"])
     for i in d["idx"]:
         c = C[i]
@@ -249,6 +254,49 @@ def run_shard(d):
                         V.append(("fasta-vs-fastq", "FASTA input gives other names/sequences than FASTQ input", dict(option_set=OPTSETS[oi], layout=layout)))
     clih.rmtree(wd)
     return res
+
+
+def do_two_outputs(wd, res):
+    """Several record outputs in one run: each file's format follows its OWN name (or the input format)."""
+    V = res["viol"]
+    ind, outd = os.path.join(wd, "in"), os.path.join(wd, "out")
+    os.makedirs(ind, exist_ok=True)
+    os.makedirs(outd, exist_ok=True)
+    paths = write_inputs(ind, "fastq", "single", "plain")
+    ref = None
+    for cores in (1, 2):
+        for e1, e2, e3 in itertools.product((".fastq", ".fasta", ""), repeat=3):
+            for oc in ("", ".gz"):
+                mcharness.clear_dir(outd)
+                names = dict(short=os.path.join(outd, "short" + e1 + oc), untr=os.path.join(outd, "untr" + e2 + oc),
+                             main=os.path.join(outd, "main" + e3 + oc))
+                argv = (["-j", str(cores), "--buffer-size", "400"] if cores > 1 else []) + \
+                    ["-a", "ad=ACGTACGG", "-m", "12", "--too-short-output", names["short"], "--untrimmed-output", names["untr"],
+                     "-o", names["main"]] + paths
+                res["evals"] += 1
+                res["nontrivial"] += 1
+                if cores == 1:
+                    r = clih.run_cli(argv)
+                    ex = r.exit
+                else:
+                    sched, val, exc = vmp.run(lambda: clih.run_cli(argv))
+                    ex = val.exit if val is not None and not sched.deadlock else "FAILED"
+                shown = [a if not a.startswith("/") else os.path.basename(a) for a in argv]
+                if ex != 0:
+                    V.append(("two-outputs:failed", f"run failed: {ex}", dict(argv=shown)))
+                    continue
+                got = {}
+                for role, ext in (("short", e1), ("untr", e2), ("main", e3)):
+                    fmt, recs = records_of(names[role])
+                    want = "fasta" if ext == ".fasta" else "fastq"
+                    if recs and fmt != want:
+                        V.append((f"two-outputs:format:{role}", f"{os.path.basename(names[role])} holds {fmt} records although its name / the input "
+                                  f"format asks for {want} (the other outputs are {e1 or 'noext'}, {e2 or 'noext'}, {e3 or 'noext'})", dict(argv=shown)))
+                    got[role] = [(n, s) for n, s, _ in recs]
+                if ref is None:
+                    ref = got
+                elif got != ref:
+                    V.append(("two-outputs:records", "records differ between naming variants of the same run", dict(argv=shown)))
 
 
 def do_stdout(wd, res):
